@@ -1,2 +1,5 @@
 import Crem.Properties.C17
 import Crem.Properties.C05
+import Crem.Properties.C06
+import Crem.Properties.C04
+import Crem.Properties.C07
